@@ -198,6 +198,53 @@ def check_scripts(problems):
         env.close()
 
 
+def check_option_resolution(problems):
+    """C10: what reaches the backend is: backend default < the target's own option, for the keys the backend knows;
+    an option resolved to None is omitted, an unknown option dropped. Real gwf.scheduling.submit_backend with a
+    recording backend; 3 known keys (one with default None) x {absent, None, value} and one unknown key."""
+    import itertools
+    import logging
+    from gwf.core import Target
+    from gwf.scheduling import submit_backend
+    logging.getLogger("gwf.scheduling").setLevel(logging.CRITICAL)
+    defaults = {"cores": 1, "memory": "1g", "queue": None}
+
+    class Rec:
+        target_defaults = defaults
+
+        def __init__(self):
+            self.got = None
+
+        def submit(self, target, dependencies):
+            self.got = dict(target.options)
+
+    class Hashes:
+        def update(self, target):
+            pass
+
+    ABSENT = object()
+    vals = {"cores": [ABSENT, None, 8], "memory": [ABSENT, None, "4g"], "queue": [ABSENT, None, "short"],
+            "nosuch": [ABSENT, None, "x"]}
+    keys = list(vals)
+    for combo in itertools.product(*(vals[k] for k in keys)):
+        opts = {k: v for k, v in zip(keys, combo) if v is not ABSENT}
+        chain = dict(defaults)
+        chain.update(opts)
+        want = {k: v for k, v in chain.items() if k in defaults and v is not None}
+        t = Target(name="t", inputs=[], outputs=[], options=dict(opts), working_dir="/w")
+        be = Rec()
+        try:
+            submit_backend(t, [], be, Hashes())
+        except Exception as e:
+            problems.append(f"options: target options {opts} over backend defaults {defaults}: submit_backend raised "
+                            f"{type(e).__name__}: {e}")
+            return
+        if be.got != want:
+            problems.append(f"options: target options {opts} over backend defaults {defaults}: the backend received "
+                            f"{be.got}, the resolved options are {want}")
+            return
+
+
 def run(which):
     def go(seed, focus):
         problems = []
@@ -215,7 +262,8 @@ def run(which):
             return {"failed_on_real_code": False, "candidates_tried": len(which),
                     "bound": "fixed scenarios: ids 11/12/13, documented state codes, 4 directory names, each default option set to None"}
         p = " ".join(problems)
-        wc = ("sge-id-with-newline" if "sge" in problems[0] and "4242" in problems[0] else
+        wc = ("option-resolution" if problems[0].startswith("options:") else
+              "sge-id-with-newline" if "sge" in problems[0] and "4242" in problems[0] else
               "cd-unquoted" if "the spec ran in" in p else "ops-other")
         return {"failed_on_real_code": True, "input": {"scenario": problems[0].split(":")[0]}, "observed": problems[:8],
                 "candidates_tried": len(which), "witness_class": wc,
